@@ -192,6 +192,4 @@ def classify(s, path, origin):
     """regions of the listed known findings"""
     if origin == "literal" and ("$" in s or "`" in s):
         return "literal-dollar-backquote-expanded"
-    if path == "file-name" and s == "-":
-        return "read-dash-is-standard-input"
     return None
